@@ -324,13 +324,28 @@ func mapDeletes(p *core.Prog, f *ssa.Function, mapF *types.Var, depth int) []ssa
 type lookupSite struct {
 	At  ssa.Instruction
 	Key ssa.Value
+	// Via: the call in the function under analysis through which a helper's
+	// lookup is reached (nil for a lookup in the function itself). A helper
+	// called twice yields its lookups twice, with the key and the guards of
+	// each call site.
+	Via ssa.CallInstruction
+}
+
+// guards: the facts under which the lookup happens (its own block's, plus the
+// call site's when it lives in a helper).
+func (ls lookupSite) guards() facts {
+	fs := factsAt(ls.At.Block())
+	if ls.Via != nil {
+		fs = fs.add(factsAt(ls.Via.Block()))
+	}
+	return fs
 }
 
 func peerLookups(f *ssa.Function) []lookupSite {
 	var out []lookupSite
 	core.EachInstr(f, func(i ssa.Instruction) {
 		if c, ok := core.IsCall(i, "RootPeerList.Get"); ok {
-			out = append(out, lookupSite{i, core.CallArgs(c)[1]})
+			out = append(out, lookupSite{At: i, Key: core.CallArgs(c)[1]})
 			return
 		}
 		c, ok := i.(*ssa.Call)
@@ -349,7 +364,7 @@ func peerLookups(f *ssa.Function) []lookupSite {
 			key := core.CallArgs(g)[1]
 			for k, prm := range cf.Params {
 				if key == ssa.Value(prm) && k < len(c.Call.Args) {
-					out = append(out, lookupSite{i, c.Call.Args[k]})
+					out = append(out, lookupSite{At: i, Key: c.Call.Args[k]})
 				}
 			}
 		}
@@ -439,7 +454,18 @@ func peerLookupsDeep(p *core.Prog, f *ssa.Function) []lookupSite {
 				if _, isGet := core.IsCall(i, "RootPeerList.Get", "PeerList.Get", "Channel.RootPeers", "Channel.updatePeer", "Peer.connectionCloseStateChange"); isGet {
 					return
 				}
-				out = append(out, peerLookups(g)...)
+				for _, ls := range peerLookups(g) {
+					ls.Via = c
+					// a key that is the helper's parameter stands for the argument of this call
+					if prm, isP := ls.Key.(*ssa.Parameter); isP {
+						for k, q := range g.Params {
+							if q == prm && k < len(c.Call.Args) {
+								ls.Key = c.Call.Args[k]
+							}
+						}
+					}
+					out = append(out, ls)
+				}
 			}
 		}
 	})
